@@ -12,6 +12,7 @@ def parseLeaf (code : String) : Option (Option (Err String)) :=
   | ['s'] => some (some .subset)
   | ['u'] => some (some (.tss [] false))
   | 'm' :: _ => some (some .comm)
+  | 'P' :: _ :: _ => some (some .comm)   -- the transport adapter failed to send to a peer, at whatever point
   | 'c' :: r =>
     if String.ofList r = "none" then some (some (.coord none))
     else (peerOf (String.ofList r)).map fun p => some (.coord (some p))
@@ -178,7 +179,7 @@ def handle (op : String) (args : List String) (impl : String) : Option Verdict :
     let some arrivals := peers arrivals | return bad
     let key := keyOf sid (keyTab sid holders)
     let some c := staticCoordinator key holders | return ⟨"noholders", impl == "noholders", "exec:noholders"⟩
-    if first = "silent" then
+    if first.startsWith "silent" then   -- `silent:<peer>`: <peer> keeps sending initiate messages meanwhile (ignored)
       if c = self then return ⟨"selfcoord", impl == "selfcoord", "exec:selfcoord"⟩
       let e : Err String := .wrap (.coord (some c))
       let (m, tag) := second self t sid holders e retryable claimant arrivals quiet
